@@ -186,6 +186,7 @@ def run(tier, seed):
         failing += corpus(ck, tmp)
         failing += roundtrip_stream(ck, tmp, 110 if not ck.deep else 1500)
         failing += cli_stream(ck, tmp, 8 if not ck.deep else 60)
+        failing += history_stream(ck, tmp)
         failing += file_form_streams(ck, tmp)
         ck.cov["rule"] = ("envelopes = implementation create() of generated descriptions (authentication blocks incl. CWT payloads, "
                           "severed members, integrated payloads, inline dependencies), plus each envelope severed and with one payload "
@@ -517,6 +518,65 @@ def cli_stream(ck, tmp, n):
 
 
 
+def _level(seq, deps=None, payloads=None):
+    """description of one envelope of a hierarchy: integrated dependencies (descriptions) and payloads (hex text) by name"""
+    man = {"suit-manifest-version": 1, "suit-manifest-sequence-number": seq,
+           "suit-common": {"suit-components": [["M", seq]], "suit-shared-sequence": [{"suit-directive-set-component-index": 0}]},
+           "suit-validate": [{"suit-directive-set-component-index": 0}]}
+    env = {"suit-authentication-wrapper": {"SuitDigest": {"suit-digest-algorithm-id": "cose-alg-sha-256"}}, "suit-manifest": man}
+    if deps:
+        env["suit-integrated-dependencies"] = {k: v for k, v in deps.items()}
+    if payloads:
+        env["suit-integrated-payloads"] = dict(payloads)
+    return {"SUIT_Envelope_Tagged": env}
+
+
+def history_stream(ck, tmp):
+    """The parse COMMAND in one process, several times: hierarchies three and four levels deep whose roots carry the SAME
+    intermediate dependency, shown in all four forms (yaml / json, hierarchy expanded or not) in designed orders, every shown
+    description created again by the create command and compared with the envelope it came from."""
+    import suit_generator.cmd_create as cc
+    import suit_generator.cmd_parse as cp
+    fails = []
+    leaf = _level(3)
+    leaf2 = _level(4, payloads={"#p.bin": "00ff"})
+    mid = _level(2, deps={"#leaf.suit": leaf, "#other.suit": leaf2})
+    deep = _level(5, deps={"#mid.suit": mid})
+    roots = {"a": _level(10, deps={"#mid.suit": mid}), "b": _level(11, deps={"#mid.suit": mid, "#mid-again.suit": mid}, payloads={"#x": ""}),
+             "c": _level(12, deps={"#deep.suit": deep, "#leaf.suit": leaf})}
+    d = core.shared_dir(tmp, "shared-parse")
+    envs = {}
+    for nm, desc in roots.items():
+        r = interp.run_impl(interp.impl_create, desc)
+        if r[0] != "ok":
+            return [{"input": {"op": "parse history", "root": nm}, "observed": f"create of the hierarchy failed: {r[1]}", "expected": "created"}]
+        envs[nm] = r[1]
+        with open(os.path.join(d, nm + ".suit"), "wb") as fh:
+            fh.write(r[1])
+    forms = [("yaml", True), ("json", True), ("yaml", False), ("json", False)]
+    orders = [[(nm, f) for nm in "abc" for f in forms], [(nm, f) for f in forms for nm in "cab"], [(nm, forms[0]) for nm in "aabbcc"]]
+    for o, order in enumerate(orders if ck.deep else orders[:2] + [orders[2][:4]]):
+        for step, (nm, (fmt, hier)) in enumerate(order):
+            out, again = os.path.join(d, f"shown.{fmt}"), os.path.join(d, "again.suit")
+            for f in (out, again):
+                if os.path.exists(f):
+                    os.remove(f)
+            why = None
+            try:
+                cp.main(input_file=os.path.join(d, nm + ".suit"), output_file=out, output_format=fmt, parse_hierarchy=hier)
+                cc.main(input_file=out, input_format=fmt, output_file=again)
+                why = compare_envelopes(envs[nm], open(again, "rb").read())
+            except BaseException as exc:  # noqa: BLE001 - cmd_create exits through SystemExit on an input error
+                why = f"raised {type(exc).__name__}: {str(exc)[:120]}"
+            ck.count("parse-history", (o, step), nontrivial=True, sample={"root": nm, "format": fmt, "parse_hierarchy": hier, "step": step, "order": o})
+            if why:
+                fails.append({"input": {"op": "parse history", "order": [[n, f, h] for n, (f, h) in order[:step + 1]]},
+                              "observed": f"step {step + 1} (root {nm}, {fmt}, hierarchy {'expanded' if hier else 'flat'}): {why}",
+                              "expected": "byte-identical manifest, wrapper, severed members; same payload set"})
+                return fails
+    return fails
+
+
 def file_form_streams(ck, tmp):
     """what parse writes (JSON / YAML) is read back by create's loaders as the same description — for descriptions whose texts, URIs
     and payload names contain line separators (NEL, LS, PS), BOM, blanks at the ends, control and YAML-significant characters"""
@@ -529,6 +589,18 @@ def replay(path):
     inp = rec["input"]
     if inp is None:
         return run("quick", rec.get("seed", 0))
+    if inp.get("op") == "parse history":
+        class _CK:
+            deep = True
+            def count(self, *a, **k):
+                pass
+        tmp = tempfile.mkdtemp(prefix="c03r-")
+        try:
+            fs = history_stream(_CK(), tmp)
+        finally:
+            shutil.rmtree(tmp, ignore_errors=True)
+        print("REPRODUCED: " + fs[0]["observed"] if fs else "not reproduced on the current tree")
+        return 1 if fs else 0
     if "op" in inp:
         import glue
         why = glue.replay(inp)
